@@ -835,6 +835,17 @@ func (s *ShapeIndex) applyUpdatesInternal() {
 	// edge as the final index memory size. If this causes issues, add in
 	// batched updating to limit the amount of items per batch to a
 	// configurable memory footprint overhead.
+	if !s.isFirstUpdate() {
+		// Incremental updating (absorbing existing index cells, removing the
+		// edges of removed shapes) is not implemented yet, see updateEdges and
+		// removeShapeInternal. Rebuild the index from the current set of
+		// shapes instead, so that queries always reflect exactly those shapes.
+		s.cellMap = make(map[CellID]*ShapeIndexCell)
+		s.cells = nil
+		s.pendingAdditionsPos = 0
+		s.pendingRemovals = s.pendingRemovals[:0]
+	}
+
 	t := newTracker()
 
 	// allEdges maps a Face to a collection of faceEdges.
